@@ -27,13 +27,14 @@ def _run(cmd, script, timeout):
 
 
 def _classify(out):
+    first = out.strip().split("\n")[0].strip() if out.strip() else ""
+    if first in ("sat", "unsat", "unknown"):
+        # an (error after the verdict can only come from get-value after unsat; errors before it come first
+        return first
     if "(error" in out:
         return "error"
-    first = out.strip().split("\n")[0].strip() if out.strip() else ""
     if first == "timeout" or "interrupted by timeout" in out:
         return "timeout"
-    if first in ("sat", "unsat", "unknown"):
-        return first
     return "error" if out.strip() else "timeout"
 
 
